@@ -1041,12 +1041,15 @@ func c10CaseQuota(t *testing.T, h *vHarness, r *vRand, cg *c10Cgroup, beDir stri
 		h.Nontrivial()
 	}
 	// oracle: budget x period floored by the minimum; the two documented exceptions are the 1% bypass and the 10% step
-	if float64(cores)*100000*0.01 != float64(cores*1000) || float64(cores)*100000*0.1 != float64(cores*10000) {
-		h.Fail("C10:float-assumption", "capacity %d: 1%%/10%% of the period-capacity product is not exact in float64", cores)
-	}
 	diff := target - cur
 	if diff < 0 {
 		diff = -diff
+	}
+	// FloatOK.bypass_iff / step_iff / stepInc_eq on this input
+	if (math.Abs(float64(target)-float64(cur)) < float64(cores)*100000*0.01) != (diff < cores*1000) ||
+		(float64(target)-float64(cur) > float64(cores)*100000*0.1) != (target-cur > cores*10000) ||
+		int64(float64(cores)*100000*0.1) != cores*10000 {
+		h.Fail("C10:float-assumption", "capacity %d target %d current %d: float64 comparison differs from the exact one", cores, target, cur)
 	}
 	switch {
 	case got == target:
